@@ -18,7 +18,7 @@ Theorem C17_panic_converted : forall s f c stk v n,
              = EDef (n + 1) (get_def s f) ("panic: " ++ pv_msg v) (Some pe) false (stack_of (get_def s f) stk) /\
     as_first is_panic_error (recovered n (get_def s f) v stk) = Some pe /\
     match v with
-    | PVErr x => pe = EPanic n (err_msg x) 0 (Some x) /\ errors_is (recovered n (get_def s f) v stk) x = true
+    | PVErr x => pe = EPanic n (fmt_v x) 0 (Some x) /\ errors_is (recovered n (get_def s f) v stk) x = true
     | PVOther id sv => pe = EPanic n sv id None
     end.
 Proof. intros. split; [now apply panic_converted|apply recovered_shape]. Qed.
